@@ -304,6 +304,8 @@ func c13RunCommands(R *ev.Run, dir, tag string, files []string, n int, fifos ...
 				}
 			}()
 			R.Trans(1)
+			// the output path holds something longer from an earlier run
+			os.WriteFile(out, bytes.Repeat([]byte("stale line of an earlier and longer product\n"), 4000), 0o644)
 			if len(fifos) > 0 && len(fifos[0]) > 0 {
 				defer fifos[0].feed()()
 			}
